@@ -2,7 +2,7 @@
    Statements are about the definitions GENERATED from /repo's apply_bounds (gen_apply_bounds), on
    every IEEE-754 binary64 value — not about reals and not about a sample. *)
 From Coq Require Import ZArith Bool.
-From HV Require Import F64 Bounds GenCommon GenEquivCommon F64Facts BoundsFacts.
+From HV Require Import F64 Bounds GenCommon GenEquivCommon F64Facts BoundsFacts BoundsZ BoundsZFacts.
 
 (* every method returns a point of the box, for every input (finite or not) and every box lo <= hi;
    the only escape is NaN, which BoundsNaN.repair_not_nan excludes on the property's domain *)
@@ -25,6 +25,22 @@ Print Assumptions C17_clip_below.
 Theorem C17_clip_above (x lo hi : f64) : fle lo hi = true -> flt hi x = true -> gen_apply_bounds MClip x lo hi = hi.
 Proof. rewrite gen_apply_bounds_eq. exact (clip_above x lo hi). Qed.
 Print Assumptions C17_clip_above.
+
+(* what the methods PRESCRIBE, in exact arithmetic (integers; rationals by scaling): in the box, identity inside, clip to the
+   nearest face, reflect congruent to +/- the input modulo twice the range, toroidal congruent to the input modulo the range
+   (coordinates relative to the lower face).  For doubles the congruence is measured by the monitor within an ulp envelope. *)
+Theorem C17_exact_clip (x lo hi : Z) : (lo <= hi)%Z ->
+  ((x < lo -> clipZ x lo hi = lo) /\ (hi < x -> clipZ x lo hi = hi) /\ (lo <= x <= hi -> clipZ x lo hi = x))%Z.
+Proof. exact (clipZ_nearest x lo hi). Qed.
+Theorem C17_exact_reflect (x lo hi : Z) : (lo < hi)%Z ->
+  (lo <= reflectZ x lo hi <= hi /\ (lo <= x <= hi -> reflectZ x lo hi = x) /\
+   exists k, reflectZ x lo hi - lo = (x - lo) + 2 * (hi - lo) * k \/ reflectZ x lo hi - lo = - (x - lo) + 2 * (hi - lo) * k)%Z.
+Proof. exact (reflectZ_spec x lo hi). Qed.
+Print Assumptions C17_exact_reflect.
+Theorem C17_exact_toroidal (x lo hi : Z) : (lo < hi)%Z ->
+  (lo <= toroidalZ x lo hi <= hi /\ (lo <= x <= hi -> toroidalZ x lo hi = x) /\ exists k, toroidalZ x lo hi - lo = (x - lo) + (hi - lo) * k)%Z.
+Proof. exact (toroidalZ_spec x lo hi). Qed.
+Print Assumptions C17_exact_toroidal.
 
 (* the pinned tree (903d392) violated the property: witnesses of defect D1, computed in Coq *)
 Theorem C17_reflect_pinned_refuted :
